@@ -710,3 +710,122 @@ Proof.
   splits; auto. intros s2 a. unfold pstep. cbn.
   destruct (_ <=? _)%N; [|discriminate]. intros H; inversion H; reflexivity.
 Qed.
+
+(** ---- ranking on the program counters (per commit cycle) ---- *)
+Definition w_dist (w : wpc) : nat :=
+  match w with WWritten => 1 | WWriting _ => 2 | WGetState => 3 | WAcquire => 4 | WSleep _ => 5 end.
+Definition r_dist (s : sys) : nat :=
+  match s_r s with RStart => 6 | RWait _ => 5 | RW w => w_dist w end.
+Definition p_dist (s : sys) : nat :=
+  match s_p s with
+  | PExit => 0
+  | PW _ w => w_dist w
+  | PSyncRet k f => if negb k && negb f then 8 else 5
+  | PSyncing k f => if negb k && negb f then 9 else 6
+  | PSyncSleep k f _ => if negb k && negb f then 10 else 7
+  | PNotify k => if k then 7 else 10
+  | PTimer _ => 11
+  | PIdle _ => 12
+  | PSelect _ => 13
+  | PStart => 14
+  end.
+
+(** the step is the failure of an I/O call *)
+Definition r_fails (s : sys) (a : ans) : bool := r_in_io s && negb (a_ok a).
+Definition p_fails (s : sys) (a : ans) : bool := p_in_io s && negb (a_ok a).
+
+Lemma r_rank_step cfg s a s' : inv1 s -> step cfg s (EStep TR a) = Some (Ok s') ->
+  if r_fails s a then r_dist s' <= r_dist s + 3
+  else r_dist s' < r_dist s \/
+       (s_r s = RW WWritten /\ s_r s' = RStart /\
+        releasedLog (s_pbl s') = releasedLog (s_pbl s) ++ firstn (releasing (s_pbl s)) (toRelease (s_pbl s))).
+Proof.
+  intros [I _]. cbn [step]. unfold rstep, r_fails, r_in_io, r_dist. destruct (s_r s) as [|c|w] eqn:Er.
+  - intros H; inversion H; subst. cbn. lia.
+  - destruct (is_closed _ _); [|discriminate]. intros H; inversion H; subst. cbn. lia.
+  - destruct w; cbn [wstep w_io].
+    + destruct (s_store s); [discriminate|]. intros H; inversion H; subst. cbn. lia.
+    + destruct (get_persistent_state _) as [[p' st]|]; [|discriminate]. intros H; inversion H; subst. cbn. lia.
+    + destruct (a_ok a); intros H; inversion H; subst; cbn; lia.
+    + destruct (notify_state_written_inv _ I) as [p' [Hn [_ [Hl _]]]]. rewrite Hn.
+      intros H; inversion H; subst. cbn. right. splits; auto.
+    + destruct (_ <=? _)%N; [|discriminate]. intros H; inversion H; subst. cbn. lia.
+Qed.
+
+Lemma p_rank_step cfg s a s' : inv1 s -> step cfg s (EStep TP a) = Some (Ok s') ->
+  if p_fails s a then p_dist s' <= p_dist s + 3
+  else p_dist s' < p_dist s \/
+       (exists k, s_p s = PW k WWritten /\ s_p s' = (if k then PStart else PExit) /\
+        releasedLog (s_pbl s') = releasedLog (s_pbl s) ++ firstn (releasing (s_pbl s)) (toRelease (s_pbl s))).
+Proof.
+  intros [I _]. cbn [step]. unfold pstep, p_fails, p_in_io, p_dist.
+  destruct (s_p s) as [|ch|ch|dl|keep|keep final|keep final|keep final dl|keep w|] eqn:Ep.
+  - intros H; inversion H; subst. cbn. lia.
+  - destruct (is_closed _ _); intros H; inversion H; subst; cbn; lia.
+  - destruct (s_cancel s && _); [|destruct (is_closed _ _); [|discriminate]];
+      intros H; inversion H; subst; cbn; lia.
+  - destruct (s_cancel s && _); [|destruct (_ && _)%bool; [|discriminate]];
+      intros H; inversion H; subst; cbn; lia.
+  - intros H; inversion H; subst. cbn. destruct keep; cbn; lia.
+  - destruct (a_ok a); intros H; inversion H; subst; cbn; destruct keep, final; cbn; lia.
+  - destruct keep, final; cbn; intros H; inversion H; subst; cbn; lia.
+  - destruct (_ <=? _)%N; [|discriminate]. intros H; inversion H; subst. cbn.
+    destruct keep, final; cbn; lia.
+  - destruct w; cbn [wstep w_io].
+    + destruct (s_store s); [discriminate|]. intros H; inversion H; subst. cbn. lia.
+    + destruct (get_persistent_state _) as [[p' st]|]; [|discriminate]. intros H; inversion H; subst. cbn. lia.
+    + destruct (a_ok a); intros H; inversion H; subst; cbn; lia.
+    + destruct (notify_state_written_inv _ I) as [p' [Hn [_ [Hl _]]]]. rewrite Hn.
+      intros H; inversion H; subst. cbn. right. exists keep. splits; auto.
+    + destruct (_ <=? _)%N; [|discriminate]. intros H; inversion H; subst. cbn. lia.
+  - discriminate.
+Qed.
+
+(** steps of the other threads leave a loop's rank unchanged *)
+Lemma r_rank_frame cfg s e s' : inv1 s -> (forall a, e <> EStep TR a) -> step cfg s e = Some (Ok s') ->
+  r_dist s' = r_dist s.
+Proof.
+  intros II Hne Hs. unfold r_dist. destruct e as [alloc| |index size|k blk seed|d| |t a].
+  1-6: (match type of Hs with step _ _ ?e = _ =>
+          assert (forall t a, e <> EStep t a) as Hne' by (intros t1 a0 H0; discriminate H0) end;
+        destruct (env_frame cfg s _ s' Hne' Hs) as [Er _]; rewrite Er; reflexivity).
+  destruct t; [exfalso; eapply Hne; reflexivity|]. cbn [step] in Hs.
+  rewrite (pstep_frame _ _ _ _ II Hs). reflexivity.
+Qed.
+
+Lemma p_rank_frame cfg s e s' : inv1 s -> (forall a, e <> EStep TP a) -> step cfg s e = Some (Ok s') ->
+  p_dist s' = p_dist s.
+Proof.
+  intros II Hne Hs. unfold p_dist. destruct e as [alloc| |index size|k blk seed|d| |t a].
+  1-6: (match type of Hs with step _ _ ?e = _ =>
+          assert (forall t a, e <> EStep t a) as Hne' by (intros t1 a0 H0; discriminate H0) end;
+        destruct (env_frame cfg s _ s' Hne' Hs) as [_ Ep]; rewrite Ep; reflexivity).
+  destruct t; [|exfalso; eapply Hne; reflexivity]. cbn [step] in Hs.
+  rewrite (rstep_frame _ _ _ _ II Hs). reflexivity.
+Qed.
+
+Theorem release_rank_reach cfg alloc oldest init t0 s : reachable cfg alloc oldest init t0 s ->
+  (forall a s', step cfg s (EStep TR a) = Some (Ok s') ->
+     if r_fails s a then r_dist s' <= r_dist s + 3
+     else r_dist s' < r_dist s \/
+          (s_r s = RW WWritten /\ s_r s' = RStart /\
+           releasedLog (s_pbl s') = releasedLog (s_pbl s) ++ firstn (releasing (s_pbl s)) (toRelease (s_pbl s))))
+  /\ (forall e s', (forall a, e <> EStep TR a) -> step cfg s e = Some (Ok s') -> r_dist s' = r_dist s).
+Proof.
+  intros R. pose proof (reachable_inv1 _ _ _ _ _ _ R) as II. split.
+  - intros a s'. apply r_rank_step. exact II.
+  - intros e s'. apply r_rank_frame. exact II.
+Qed.
+
+Theorem put_rank_reach cfg alloc oldest init t0 s : reachable cfg alloc oldest init t0 s ->
+  (forall a s', step cfg s (EStep TP a) = Some (Ok s') ->
+     if p_fails s a then p_dist s' <= p_dist s + 3
+     else p_dist s' < p_dist s \/
+          (exists k, s_p s = PW k WWritten /\ s_p s' = (if k then PStart else PExit) /\
+           releasedLog (s_pbl s') = releasedLog (s_pbl s) ++ firstn (releasing (s_pbl s)) (toRelease (s_pbl s))))
+  /\ (forall e s', (forall a, e <> EStep TP a) -> step cfg s e = Some (Ok s') -> p_dist s' = p_dist s).
+Proof.
+  intros R. pose proof (reachable_inv1 _ _ _ _ _ _ R) as II. split.
+  - intros a s'. apply p_rank_step. exact II.
+  - intros e s'. apply p_rank_frame. exact II.
+Qed.
